@@ -10,7 +10,7 @@ VARIANTS = ['asan']
 RULE = ('grammar-derived valid texts over random schemas (no deprecated options; free-form key=value sections included) with an error injected at a token position (unknown name, '
         'unconvertible value, wrong token, premature end), laid out with any mix of # // /* */ comments (also multi-line), blank lines, CRLF, multi-line quoted strings, backslash-newline '
         'continuations and 0-2 levels of include; the generator tracks the file and end line of every token, model_lang decides at which token the text must be rejected. Expected: parse-error '
-        'code, >= 1 diagnostic, every diagnostic naming that file and that line. Second clause: every accepted parse delivers no diagnostic. '
+        'code, >= 1 diagnostic, every diagnostic naming that file and that line; the judged text is given through cfg_parse_buf, cfg_parse_fp or cfg_parse(file), in 40% of cases after an earlier accepted parse (comments and blank lines) on the same context. Second clause: every accepted parse delivers no diagnostic. '
         'non-trivial: the error point is preceded by a newline-bearing construct other than a blank line; distinct = case hash')
 
 SEPS = [' ', ' ', '\n', '\n', '  \n\n ', '\t', '\r\n', ' # c\n', ' // c\n', ' /* c */ ', ' /* multi\n line\n*/ ', '\n# own line\n', '\n\n// x\n\n', ' /**/ ', ' #\n']
@@ -124,7 +124,12 @@ def gen_case(rng, idx, want_accept):
             else:
                 cut = rng.randint(0, len(plan[last][1]) - 1)
                 del plan[last][1][cut:]
-    return {'decls': [d.to_json() for d in decls], 'plan': [[f, it] for f, it in plan], 'fancy': rng.random() < 0.85, 'kind': kind, 'seed': rng.getrandbits(32), 'dir': 'k%d' % idx, 'failat': failat}
+    # entry point of the judged parse, and an earlier (accepted, comment-and-blank-lines only) parse on the same context
+    entry = rng.choice(['buf'] * 6 + ['fp', 'fp', 'file', 'file'])
+    pre = rng.choice([None] * 6 + ['buf', 'fp', 'fp', 'file'])
+    pretext = ''.join(rng.choice(['\n', '# earlier\n', '/* earlier\n text */\n', '\n\n']) for _ in range(rng.randint(1, 6)))
+    return {'decls': [d.to_json() for d in decls], 'plan': [[f, it] for f, it in plan], 'fancy': rng.random() < 0.85, 'kind': kind, 'seed': rng.getrandbits(32), 'dir': 'k%d' % idx, 'failat': failat,
+            'entry': entry, 'pre': pre, 'pretext': pretext}
 
 
 def build(spec):
@@ -192,12 +197,19 @@ def script(spec):
     for name, text in files.items():
         if name != 'main':
             L.append('mkfile %s %s' % (hx(d + '/' + name), hx(text)))
+    L.append('mkfile %s %s' % (hx(d + '/main.conf'), hx(files['main'])))
+    L.append('mkfile %s %s' % (hx(d + '/pre.conf'), hx(spec.get('pretext', ''))))
     L.append('chdir %s' % hx(d))
     L += lines
     L.append('init 0 %d 0' % sid)
+    pre = spec.get('pre')
+    if pre:
+        L.append('parse_file 0 %s' % hx('pre.conf') if pre == 'file' else 'parse_%s 0 %s' % (pre, hx(spec['pretext'])))
+        L.append('note prepared')
     if spec.get('failat'):
         L.append('failat %d' % spec['failat'])
-    L.append('parse_buf 0 %s' % hx(files['main']))
+    entry = spec.get('entry', 'buf')
+    L.append('parse_file 0 %s' % hx('main.conf') if entry == 'file' else 'parse_%s 0 %s' % (entry, hx(files['main'])))
     return '\n'.join(L)
 
 
@@ -210,7 +222,20 @@ def judge(spec, events, death):
         return v
     model = schema.new_root(decls[:-1] + [D('include', 'func', cbs='')])      # include is a plain call for the model (the file's tokens follow in the stream)
     verdict, pos, it = model_lang.interpret(model, flat, 0, failat=spec.get('failat', 0))
-    r = [e for e in events if e.get('ev') == 'r' and e.get('op') == 'parse_buf']
+    r = [e for e in events if e.get('ev') == 'r' and e.get('op') in ('parse_buf', 'parse_fp', 'parse_file')]
+    entry = spec.get('entry', 'buf')
+    if spec.get('pre'):
+        if len(r) < 2:
+            v.bad('harness:short-log', 'no parse result')
+            return v
+        if r[0]['rc'] != 0:
+            v.bad('earlier-parse-rejected', 'a text of comments and blank lines %r was rejected (rc=%s)' % (spec['pretext'], r[0]['rc']))
+            return v
+        cut = next(k for k, e in enumerate(events) if e.get('ev') == 'r' and e.get('op') in ('parse_buf', 'parse_fp', 'parse_file'))
+        events = events[cut + 1:]
+        r = r[1:]
+        v.notes['second_parse_on_context'] = 1
+    v.notes.setdefault('entry_points', set()).add(entry)
     diags = [(unhx(e['file']), e['line'], unhx(e['msg'])) for e in events if e.get('ev') == 'diag']
     if not r:
         v.bad('harness:short-log', 'no parse result')
@@ -240,7 +265,9 @@ def judge(spec, events, death):
         v.skipped = True
         return v
     efile, eline = tags[pos] if pos < len(tags) else eof
-    efile = '[buf]' if efile == 'main' else efile
+    # the name of the top-level source: the buffer name, the name given to cfg_parse(); a bare stream has no name of its own (not judged)
+    if efile == 'main':
+        efile = {'buf': '[buf]', 'file': 'main.conf', 'fp': None}[entry]
     # non-trivial: something newline-bearing other than blank lines precedes the error point
     v.nontrivial = eline > 1 and (len(files) > 1 or any(c in files['main'] for c in '#/\\'))
     if r[0]['rc'] != 1:
@@ -249,8 +276,8 @@ def judge(spec, events, death):
         v.bad('silent-reject:%s' % it.why, 'text rejected (%s) without any diagnostic; text %r' % (it.why, files['main'][:300]))
         return v
     for f, l, m in diags:
-        if f != efile:
-            v.bad('wrong-file:%s:%s' % ('in-include' if efile != '[buf]' else 'in-main', 'none' if f is None else 'other'),
+        if efile is not None and f != efile:
+            v.bad('wrong-file:%s:%s' % ('in-include' if efile not in ('[buf]', 'main.conf') else 'in-main', 'none' if f is None else 'other'),
                   'error (%s) at token %d ends in %s line %d, diagnostic %r names file %r line %s; main text %r' % (it.why, pos, efile, eline, m, f, l, files['main'][:300]))
             break
         if l != eline:
